@@ -27,19 +27,26 @@
 (*                 Node disappeared while its NodeClaim remains            *)
 (*   "podUnbound"  UpdatePod ignores an unbound pod although a binding of  *)
 (*                 the same name (a deleted predecessor) is still tracked  *)
+(* and, as pure spec mutations for the vacuity check (X_Weak*.cfg):        *)
+(*   "skipOldBindings" cleanupOldBindings omitted                          *)
+(*   "hpCarry"         newStateFromNodeClaim drops hostPortUsage           *)
+(*   "markCarry"       newStateFromNode drops markedForDeletion            *)
+(*   "poolOnPid"       cleanupNode forgets updateNodePoolResources         *)
 (***************************************************************************)
 EXTENDS ClusterStateF, TLC, Json
 
 CONSTANTS NodeNames, ClaimNames, PodKeys, Pids, Pools,
-          Defects,      \* subset of {"costCarry", "nodeGone"}
+          Defects,      \* see above
           MaxMut,       \* bound on environment mutations (closed-model checking)
           MaxDup,       \* bound on repeated deliveries
           MaxLen,       \* generator: length of printed histories
-          WithTerm      \* environment may set InstanceTerminating on a NodeClaim
+          WithTerm,     \* environment may set InstanceTerminating on a NodeClaim
+          WithRestart,  \* Karpenter may restart (empty cache, every object delivered again)
+          MaxPend       \* generator bias: with this many deliveries outstanding the environment waits for quiescence
 
-VARIABLES api, pend, C, marks, own, gone, nm, nd, h
-vars == <<api, pend, C, marks, own, gone, nm, nd, h>>
-view == <<api, pend, C, marks, own, gone, nm, nd>>
+VARIABLES api, pend, C, marks, own, gone, nm, nd, ph, h
+vars == <<api, pend, C, marks, own, gone, nm, nd, ph, h>>
+view == <<api, pend, C, marks, own, gone, nm, nd, ph>>
 
 Keys == Pids \cup NodeNames
 
@@ -91,7 +98,7 @@ NoUsage(s) == [s EXCEPT !.req = {}, !.dreq = {}, !.cost = {}, !.hp = {}, !.vol =
 
 \* Cluster.cleanupOldBindings(pod) for a pod now bound to node nn
 CleanupOldBindings(c, p, nn) ==
-    IF c.bind[p] = "-" \/ c.bind[p] = nn THEN c
+    IF c.bind[p] = "-" \/ c.bind[p] = nn \/ "skipOldBindings" \in Defects THEN c
     ELSE LET k == c.n2p[c.bind[p]]
          IN IF k # "-" /\ c.cn[k].ex THEN [c EXCEPT !.cn[k] = CleanupForPod(@, p), !.bind[p] = "-"] ELSE c
 
@@ -119,7 +126,7 @@ CleanupNodeOp(c, name) ==
        ELSE IF ~c.cn[id].claim.ex THEN [PoolUpd(c, c.cn[id], NewSN) EXCEPT !.cn[id] = NewSN, !.n2p[name] = "-"]
        ELSE LET keep == [c.cn[id] EXCEPT !.node = NoNode]
                 new == IF "nodeGone" \in Defects THEN keep ELSE NoUsage(keep)
-            IN [PoolUpd(c, c.cn[id], new) EXCEPT !.cn[id] = new, !.n2p[name] = "-"]
+            IN [(IF "poolOnPid" \in Defects THEN c ELSE PoolUpd(c, c.cn[id], new)) EXCEPT !.cn[id] = new, !.n2p[name] = "-"]
 
 \* Cluster.UpdateNode(node) incl. newStateFromNode / populateResourceRequests
 UpdateNodeOp(c, obj, pods) ==
@@ -129,13 +136,15 @@ UpdateNodeOp(c, obj, pods) ==
         old == c.cn[k]
         S == {p \in PodKeys : pods[p].ex /\ pods[p].node = obj.name /\ ~pods[p].term}
         \* pods of S previously bound elsewhere leave their old state node (cleanupOldBindings)
-        Moved(k2) == {p \in S : c.bind[p] \notin {"-", obj.name} /\ c.n2p[c.bind[p]] = k2 /\ c.cn[k2].ex}
+        Moved(k2) == IF "skipOldBindings" \in Defects THEN {}
+                     ELSE {p \in S : c.bind[p] \notin {"-", obj.name} /\ c.n2p[c.bind[p]] = k2 /\ c.cn[k2].ex}
         c1 == [c EXCEPT !.cn = [k2 \in Keys |->
                                   [c.cn[k2] EXCEPT !.req = @ \ Moved(k2), !.dreq = @ \ Moved(k2), !.cost = @ \ Moved(k2),
                                                    !.hp = @ \ Moved(k2), !.vol = @ \ Moved(k2)]],
                         !.bind = [p \in PodKeys |-> IF p \in S THEN obj.name ELSE c.bind[p]]]
         n == [ex |-> TRUE, node |-> obj, claim |-> old.claim, req |-> S, dreq |-> {p \in S : PodAttr[p].ds},
-              cost |-> {p \in S : ~PodAttr[p].ds /\ EvCost(PodAttr[p]) > 0}, hp |-> S, vol |-> S, marked |-> old.marked]
+              cost |-> {p \in S : ~PodAttr[p].ds /\ EvCost(PodAttr[p]) > 0}, hp |-> S, vol |-> S,
+              marked |-> old.marked /\ "markCarry" \notin Defects]
         c2 == IF c1.n2p[obj.name] \notin {"-", k} THEN CleanupNodeOp(c1, obj.name) ELSE c1
         c3 == PoolUpd(c2, old, n)
     IN [c3 EXCEPT !.cn[k] = n, !.n2p[obj.name] = k]
@@ -146,7 +155,8 @@ UpdateClaimOp(c, obj) ==
         c1 == IF pid = "" THEN c
               ELSE LET old == c.cn[pid]
                        n == [old EXCEPT !.ex = TRUE, !.claim = obj,
-                                        !.cost = IF "costCarry" \in Defects THEN {} ELSE @]
+                                        !.cost = IF "costCarry" \in Defects THEN {} ELSE @,
+                                        !.hp = IF "hpCarry" \in Defects THEN {} ELSE @]
                        ca == IF c.c2p[obj.name] \notin {"-", pid} THEN CleanupClaimOp(c, obj.name) ELSE c
                    IN [PoolUpd(ca, old, n) EXCEPT !.cn[pid] = n]
         mk == pid # "" /\ SNMarked(c1.cn[pid])
@@ -202,7 +212,7 @@ Mut(kind, name) == /\ nm < MaxMut /\ nm' = nm + 1 /\ pend' = pend \cup {Obj(kind
 Init == /\ api = [nodes |-> [n \in NodeNames |-> NoNode], claims |-> [c \in ClaimNames |-> NoClaim],
                   pods |-> [p \in PodKeys |-> NoPod]]
         /\ pend = {} /\ C = C0 /\ marks = {} /\ nm = 0 /\ nd = 0 /\ h = <<>>
-        /\ own = [i \in Pids |-> [node |-> "-", claim |-> "-"]] /\ gone = {}
+        /\ own = [i \in Pids |-> [node |-> "-", claim |-> "-"]] /\ gone = {} /\ ph = "env"
 
 \* provider ids identify instances: an id is never used by two different Node names / NodeClaim names
 NodeMayUse(n, i) == own[i].node \in {"-", n} /\ \A n2 \in NodeNames \ {n} : ~(api.nodes[n2].ex /\ api.nodes[n2].pid = i)
@@ -287,6 +297,16 @@ Unmark(k) ==
     /\ C' = UnmarkOp(C, k) /\ marks' = marks \ {k} /\ nm' = nm + 1
     /\ UNCHANGED <<api, pend, own, gone, nd>> /\ Step("Unmark", k, "-", "-")
 
+Known(kind, name) == CASE kind = "Node" -> api.nodes[name].ex
+                       [] kind = "NodeClaim" -> api.claims[name].ex
+                       [] kind = "Pod" -> api.pods[name].ex
+Objs == ({"Node"} \X NodeNames) \cup ({"NodeClaim"} \X ClaimNames) \cup ({"Pod"} \X PodKeys)
+Restart ==
+    /\ WithRestart /\ nm < MaxMut /\ nm' = nm + 1
+    /\ C' = C0 /\ marks' = {}
+    /\ pend' = {o \in Objs : Known(o[1], o[2])}
+    /\ UNCHANGED <<api, own, gone, nd>> /\ Step("Restart", "-", "-", "-")
+
 \* ---- C-actions: the informer controllers reconcile one object (its current version or its absence)
 ReconcileEffect(kind, name) ==
     CASE kind = "Node" ->
@@ -303,16 +323,12 @@ Deliver(kind, name) ==
        IN /\ C' = r[1] /\ marks' = MarksAfter(r[1])
           /\ pend' = IF r[2] THEN pend ELSE pend \ {Obj(kind, name)}    \* NotFound -> requeued, still pending
     /\ UNCHANGED <<api, own, gone, nm, nd>> /\ Step("Deliver", kind, name, "-")
-Known(kind, name) == CASE kind = "Node" -> api.nodes[name].ex
-                       [] kind = "NodeClaim" -> api.claims[name].ex
-                       [] kind = "Pod" -> api.pods[name].ex
 Redeliver(kind, name) ==
     /\ nd < MaxDup /\ Obj(kind, name) \notin pend /\ Known(kind, name)
     /\ LET r == ReconcileEffect(kind, name)
        IN /\ C' = r[1] /\ marks' = MarksAfter(r[1]) /\ ~r[2]
     /\ nd' = nd + 1 /\ UNCHANGED <<api, own, gone, nm, pend>> /\ Step("Deliver", kind, name, "dup")
 
-Objs == ({"Node"} \X NodeNames) \cup ({"NodeClaim"} \X ClaimNames) \cup ({"Pod"} \X PodKeys)
 EnvNext ==
     \/ \E n \in NodeNames : \/ \E pid \in Pids \cup {""}, pl \in Pools \cup {""} : CreateNode(n, pid, pl)
                             \/ \E pid \in Pids : SetNodePid(n, pid)
@@ -324,8 +340,14 @@ EnvNext ==
                           \/ \E n \in NodeNames : BindPod(p, n)
                           \/ PodTerminal(p) \/ RemovePod(p)
     \/ \E k \in Keys : Mark(k) \/ Unmark(k)
-DeliverNext == \E o \in Objs : Deliver(o[1], o[2]) \/ Redeliver(o[1], o[2])
-Next == Len(h) < MaxLen /\ (EnvNext \/ DeliverNext)
+    \/ Restart
+\* Generator bias (no effect when MaxPend is large): once MaxPend deliveries are outstanding the environment waits
+\* (ph = "drain") until none is, unless all that is left are pods waiting for a node the cache does not know.
+Blocked(o) == o[1] = "Pod" /\ ReconcileEffect(o[1], o[2])[2]
+EnvOK == ph = "env" \/ \A o \in pend : Blocked(o)
+DeliverNext == \E o \in Objs : Deliver(o[1], o[2]) \/ (ph = "env" /\ Redeliver(o[1], o[2]))
+Next == /\ Len(h) < MaxLen /\ ((EnvOK /\ EnvNext) \/ DeliverNext)
+        /\ ph' = IF pend' = {} THEN "env" ELSE IF Cardinality(pend') >= MaxPend THEN "drain" ELSE ph
 Spec == Init /\ [][Next]_vars
 
 \* ---------------------------------------------------------------- properties
@@ -346,9 +368,19 @@ Inv_EnvUnambiguous == FUnambiguous(api, Keys)
 
 \* weak configs print the witness history before failing, so the counterexample can be replayed on the real code
 Witness(inv) == inv \/ (PrintT(<<"BEH", ToJson(h)>>) /\ FALSE)
-W_C11_disruptionCost == Witness(Inv_C11_disruptionCost)
+W_C11_nodes == Witness(Inv_C11_nodes)
 W_C11_requests == Witness(Inv_C11_requests)
+W_C11_daemonRequests == Witness(Inv_C11_daemonRequests)
+W_C11_hostPorts == Witness(Inv_C11_hostPorts)
+W_C11_volumes == Witness(Inv_C11_volumes)
+W_C11_disruptionCost == Witness(Inv_C11_disruptionCost)
+W_C11_marks == Witness(Inv_C11_marks)
+W_C11_poolTotals == Witness(Inv_C11_poolTotals)
+W_C11_nodeCounts == Witness(Inv_C11_nodeCounts)
 
-\* generator: print complete histories (simulation mode)
+\* generators.  GenPrint: complete histories of length MaxLen (simulation mode, history part of the state).
+\* GenQuiescent: with the history hidden by VIEW, TLC visits every distinct (api, pend, cache) state once; the
+\* history that first reached each distinct quiescent state is printed - a tour of all distinct quiescent states.
 GenPrint == Len(h) < MaxLen \/ PrintT(<<"BEH", ToJson(h)>>)
+GenQuiescent == ~(Quiescent /\ h # <<>> /\ h[Len(h)].a \in {"Deliver", "Mark", "Unmark"}) \/ PrintT(<<"BEH", ToJson(h)>>)
 =============================================================================
